@@ -350,6 +350,163 @@ func c41Case(n *Node, r *rand.Rand) *c41Run {
 	return c
 }
 
+// ---- the library's own default deadline ----
+// Surveys called with context.Background() while a node stays silent: termination must come from
+// defaultSurveyTimeout (a constant, 10 s; the derived context is not visible to the handler or the
+// Controller, so the only way to observe it is to wait). The surveys of this class are started before
+// the other cases and collected after them, so the wait overlaps with the rest of the run.
+
+type c41BGSurvey struct {
+	num   int
+	done  chan c41Result
+	start time.Time
+}
+
+type c41BG struct {
+	n   *Node
+	svs []*c41BGSurvey
+	evs []c41Ev
+	coq []string
+}
+
+type c41BGMode struct {
+	reply bool
+	val   uint32
+}
+
+func (b *c41BG) log(e c41Ev, term string) {
+	b.evs = append(b.evs, e)
+	b.coq = append(b.coq, term)
+}
+
+func c41StartDefaultDeadline(t *testing.T) *c41BG {
+	n, err := New(Config{LogLevel: LogLevelNone})
+	if err != nil {
+		t.Fatal(err)
+	}
+	n.SetController(&c41Controller{})
+	modeCh := make(chan c41BGMode, 1)
+	called := make(chan struct{}, 1)
+	n.OnSurvey(func(ev SurveyEvent, cb SurveyCallback) {
+		m := <-modeCh
+		if m.reply {
+			cb(SurveyReply{Code: m.val})
+		}
+		called <- struct{}{}
+	})
+	if err := n.Run(); err != nil {
+		t.Fatal(err)
+	}
+	n.nodes.add(&controlpb.Node{Uid: "n1", Name: "n1"})
+	n.nodes.add(&controlpb.Node{Uid: "n2", Name: "n2"})
+	b := &c41BG{n: n}
+	type spec struct {
+		to       string
+		num      int
+		local    bool
+		reply    bool
+		delivers []string
+	}
+	specs := []spec{
+		{"", 3, true, true, []string{"n1"}},       // one remote answers, the other stays silent
+		{"n1", 1, false, false, nil},              // the only surveyed node is silent
+		{n.ID(), 1, true, false, nil},             // the local handler never replies
+		{"", 3, true, true, []string{"n1", "n1"}}, // duplicates of one node, the other silent
+	}
+	for k, sp := range specs {
+		sv := &c41BGSurvey{num: sp.num, done: make(chan c41Result, 1), start: time.Now()}
+		b.svs = append(b.svs, sv)
+		id := k + 1
+		val := uint32(110 + k)
+		if sp.local {
+			modeCh <- c41BGMode{reply: sp.reply, val: val}
+		}
+		to := sp.to
+		go func() {
+			// a context WITHOUT deadline: the library must apply its own
+			res, err := n.Survey(context.Background(), "c41bg", nil, to)
+			sv.done <- c41Result{res, err}
+		}()
+		if sp.local {
+			lv := uint64(val)
+			select {
+			case <-called:
+			case <-time.After(2 * time.Second):
+			}
+			b.log(c41Ev{K: "start", ID: id, Num: sp.num, Local: &lv}, vApp("SStart", vNat(sp.num), vOpt(vN(lv), true)))
+			if sp.reply {
+				b.log(c41Ev{K: "local", ID: id}, vApp("SLocal", vNat(id)))
+			}
+			b.log(c41Ev{K: "handlerDone", ID: id}, vApp("SHandlerDone", vNat(id)))
+		} else {
+			deadline := time.Now().Add(2 * time.Second)
+			for time.Now().Before(deadline) {
+				n.surveyMu.RLock()
+				_, ok := n.surveyRegistry[uint64(id)]
+				n.surveyMu.RUnlock()
+				if ok {
+					break
+				}
+				time.Sleep(20 * time.Microsecond)
+			}
+			b.log(c41Ev{K: "start", ID: id, Num: sp.num}, vApp("SStart", vNat(sp.num), "None"))
+		}
+		for j, uid := range sp.delivers {
+			v := uint32(20 + 10*k + j)
+			data, _ := n.controlEncoder.EncodeCommand(&controlpb.Command{Uid: uid,
+				SurveyResponse: &controlpb.SurveyResponse{Id: uint64(id), Code: v}})
+			_ = n.HandleControl(data)
+			b.log(c41Ev{K: "deliver", UID: c41UID(n, uid), ID: id, V: uint64(v)},
+				vApp("SDeliver", vN(c41UID(n, uid)), vNat(id), vN(uint64(v))))
+			// let the collector drain
+			deadline := time.Now().Add(2 * time.Second)
+			for time.Now().Before(deadline) {
+				n.surveyMu.RLock()
+				ch := n.surveyRegistry[uint64(id)]
+				n.surveyMu.RUnlock()
+				if len(ch) == 0 {
+					break
+				}
+				time.Sleep(20 * time.Microsecond)
+			}
+		}
+	}
+	return b
+}
+
+// finish waits for the library's default deadline of every survey of the class.
+func (b *c41BG) finish() (hung int) {
+	for k, sv := range b.svs {
+		id := k + 1
+		limit := sv.start.Add(defaultSurveyTimeout + 3*time.Second)
+		select {
+		case r := <-sv.done:
+			elapsed := time.Since(sv.start)
+			b.log(c41Ev{K: "defaultDeadline", ID: id}, vApp("SDefaultDeadline", vNat(id)))
+			var res [][2]uint64
+			for uid, v := range r.res {
+				res = append(res, [2]uint64{c41UID(b.n, uid), uint64(v.Code)})
+			}
+			sort.Slice(res, func(i, j int) bool { return res[i][0] < res[j][0] })
+			xs := make([]string, len(res))
+			for i, p := range res {
+				xs[i] = vPair(vN(p[0]), vN(p[1]))
+			}
+			// not before the default deadline (nothing else can end these surveys), and soon after it
+			prompt := elapsed >= defaultSurveyTimeout-200*time.Millisecond && elapsed <= defaultSurveyTimeout+3*time.Second
+			b.log(c41Ev{K: "return", ID: id, Res: res, Err: r.err != nil, Prompt: prompt, V: uint64(elapsed / time.Millisecond)},
+				vApp("SReturn", vNat(id), vList(xs), vBool(r.err != nil), vBool(prompt)))
+		case <-time.After(time.Until(limit)):
+			hung++
+			b.log(c41Ev{K: "hang", ID: id}, vApp("SHang", vNat(id)))
+		}
+	}
+	go func() { _ = b.n.Shutdown(context.Background()) }()
+	return hung
+}
+
+const c41BGIndex = 2
+
 func TestVerifC41(t *testing.T) {
 	w := verifOpen(t, "C41")
 	defer w.Close()
@@ -377,9 +534,13 @@ func TestVerifC41(t *testing.T) {
 		t.Fatal(err)
 	}
 	defer func() { _ = n.Shutdown(context.Background()) }()
+	var bgc *c41BG
+	if w.N > c41BGIndex && w.Want(c41BGIndex) {
+		bgc = c41StartDefaultDeadline(t)
+	}
 	blockedRuns := 0
 	for i := 0; i < w.N; i++ {
-		if !w.Want(i) {
+		if !w.Want(i) || i == c41BGIndex {
 			continue
 		}
 		if blockedRuns > 3 {
@@ -396,6 +557,11 @@ func TestVerifC41(t *testing.T) {
 		term := vApp("mkCase", vList(c.coq))
 		w.Case(i, term, map[string]any{"events": c.evs, "blocked": c.blocked}, class,
 			c.nret >= 1 && (c.dups > 0 || c.late > 0 || len(c.svs) >= 2))
+	}
+	if bgc != nil {
+		hung := bgc.finish()
+		w.Case(c41BGIndex, vApp("mkCase", vList(bgc.coq)), map[string]any{"events": bgc.evs, "hung": hung}, "default-deadline", true)
+		w.Extra["default_deadline_surveys_hung"] = hung
 	}
 	w.Extra["blocked_runs"] = blockedRuns
 }
